@@ -172,6 +172,29 @@ def check_sinks(out, facts):
         out.ob('R07.3', key, ok, 'sink does not append exactly the bytes it is given: ' + s[:200], f['loc'], sample={'term': s[:200]})
 
 
+def _iterates_all(unk):
+    """the arm is exactly one loop that encodes every element of `slice` once, front to back: a `for` over
+    slice.iter() / slice, or an index loop over 0..slice.len() (while-counter spelling included)"""
+    from .. import shape as sh
+    its = sym.items(unk) if unk else []
+    if len(its) != 1 or its[0][0] != 'star':
+        return False
+    y = its[0]
+    outs = [z for z in sym.walk(y[2]) if z[0] in ('enc', 'byte', 'write', 'star', 'prim_le', 'opaque', 'alt')]
+    if len(outs) != 1 or outs[0][0] != 'enc':
+        return False
+    idx = sh._indexed_loop(y)
+    if idx is not None:
+        return sym.vstr(idx) == 'slice'
+    src = strip(y[1])
+    if src == ('loop',):
+        return False
+    base = sh._iter_src(src)
+    op = strip(outs[0][2])
+    fwd = sym.vstr(src) == 'slice' or (sh._is_forward_iter(src) and sym.vstr(strip(src[3][0])) == 'slice')
+    return fwd and sym.vstr(base) == 'slice' and isinstance(op, tuple) and op[0] == 'elem' and sym.vstr(op[1]) == sym.vstr(src)
+
+
 def check_bulk(out, facts):
     cfg = facts.cfg
     f = roles(facts).get('slice_no_len')
@@ -189,7 +212,7 @@ def check_bulk(out, facts):
         arms = {d[1]: x for d, x in alts[0][2]}
         unk = arms.get('Unknown')
         s = sym.tstr(unk) if unk else ''
-        ok = s == 'star(iter(slice)){enc<T>(elem(iter(slice)))}'
+        ok = _iterates_all(unk)
         out.ob('R07.4', 'encode_slice_no_len Unknown arm iterates all items [%s]' % cfg, ok, 'element-wise fallback is ' + s, f['loc'])
         for var, x in arms.items():
             if var == 'Unknown':
